@@ -74,6 +74,12 @@ CHECKS.update({
    ref="DESIGN.md §4 C17", note="Positions are registered after the move and the turn toggle. Multiplicities above 3 are not judged."),
 })
 
+CHECKS.update({
+ "C15": dict(tech="complete enumeration of the compiled book trie and of engine queries per book choice, against the rules model",
+   text="Every node and edge of the compiled opening-book trie is walked through the real Book API and each edge checked for legality in the model position reached from the standard start; at every node a Game that played the prefix is asked for its move once per possible random book choice (choice seam), at one-move departures once, and for all seed positions / positions near the start supplied through Game::from_board with empty and book-prefix histories; every answer must be a legal move.",
+   ref="DESIGN.md §4 C15", note="Depth-0 games are excluded (DepthTooLow, C07). The random book index is replaced by the guarded choice seam so that all choices are enumerated."),
+})
+
 NOT_YET = {}
 
 def main():
